@@ -105,3 +105,18 @@ Example opens_after_nonvacuous :
   0 <= threshold c /\ Forall fail_event [(1,2,OErr); (3,4,OPanic); (5,6,OErr)] /\
   Z.of_nat 3 <= threshold c + 1.
 Proof. cbn. repeat split; try lia. repeat constructor; unfold fail_event; cbn; discriminate. Qed.
+
+(* Clock arithmetic: the model is over Z, the code over int64.  The code's form of the test,
+   [now - lastFailTime < recoverTime], cannot wrap for clock readings of one clock; the
+   "absolute deadline" form [now < lastFailTime + recoverTime] can (witness: an effectively
+   infinite recovery time), so the model's Z arithmetic is the code's only for the former. *)
+Theorem C20_interval_is_exact_in_int64 : forall now lastf,
+  0 <= lastf <= now -> now < 2^63 -> wrap64 (now - lastf) = now - lastf.
+Proof. exact interval_does_not_wrap. Qed.
+Print Assumptions C20_interval_is_exact_in_int64.
+
+Theorem C20_deadline_form_refuted : exists now lastf rec,
+  0 <= lastf <= now /\ now < 2^63 /\ 0 <= rec < 2^63 /\
+  (now - lastf <? rec) = true /\ (now <? wrap64 (lastf + rec)) = false.
+Proof. exact deadline_form_wraps. Qed.
+Print Assumptions C20_deadline_form_refuted.
